@@ -17,7 +17,9 @@ SHARDS = 16
 RULE = ("ALL non-empty subsets of <= 5 (thorough: <= 6) points of a 3x3 lattice (x spacings 0.6/1.4 eps, y spacings "
         "0.7/0.7 eps, rotated) x sky location {mid-latitude, across RA=0/360, around the north pole, around the south "
         "pole} x eps {1', 4', 2 deg} x flux assignment {all distinct, all equal, one position duplicated with a tied "
-        "flux} x ALL permutations of the rows, on regroup_dbscan called with the callers' eps conversion "
+        "flux} (quick tier: all-equal on subsets of <= 4 points, duplicate on subsets of <= 3 points (4 rows); thorough: "
+        "all-equal <= 6, duplicate on <= 5 points (6 rows)) x ALL permutations of the rows (<= 5! / 6!), on "
+        "regroup_dbscan called with the callers' eps conversion "
         "sin(radians(eps/60)); the same subsets x ALL permutations on regroup(dist=norm_dist | sky_dist) (partition, "
         "labels, order independence only); the AeReg command line on the same catalogues written as csv tables; "
         "resize on ALL permutations of ALL non-empty subsets of six archetype rows x ratio {None, 1, 1.5, 3}; "
@@ -335,7 +337,7 @@ def axes(tier, seed):
                     for k, v in fl.items()},
                 permutations="all row orders (<= %d!) + the identity order as a numpy object array" % nd,
                 ellip_subsets="all non-empty subsets of <= %d points" % ne, ellip_dist=["norm_dist", "sky_dist"],
-                ellip_flux=["distinct", "equal"],
+                ellip_flux=["distinct", "equal (quick: subsets of <= %d points)" % (ne - 1)],
                 cli_subsets="all non-empty subsets of <= %d points + the full lattice, rows in given and reversed order" % nc,
                 resize=dict(rows=[r[0] for r in RESIZE_ROWS], subsets="all 63 non-empty subsets", orders="all permutations",
                             ratio=[None, 1, 1.5, 3]))
@@ -352,7 +354,8 @@ def cases(tier, seed):
                 for eps in EPS_ARCMIN:
                     yield "dbscan", dict(mask=mask, loc=loc, eps=eps, flux=[f for f in FLUXES if n <= fl[f]])
                     if n <= ne:
-                        yield "ellip", dict(mask=mask, loc=loc, eps=eps)
+                        yield "ellip", dict(mask=mask, loc=loc, eps=eps,
+                                            flux=["distinct", "equal"] if n < ne or tier != "quick" else ["distinct"])
                     if n <= nc:
                         yield "cli", dict(mask=mask, loc=loc, eps=eps)
     for loc in LOCS:
@@ -393,7 +396,7 @@ def ev_ellip(case, ctx):
     # source sizes such that norm_dist = 4 (the historical default eps) corresponds to a separation of about eps
     size = eps_deg * 3600.0 / (4.0 * np.sqrt(2.0))
     for dist_name, dist, e in (("norm_dist", cluster.norm_dist, 4.0), ("sky_dist", cluster.sky_dist, eps_deg)):
-        for flux in ("distinct", "equal"):
+        for flux in case.get("flux", ["distinct", "equal"]):
             rows = _rows(mask, flux)
             templates = _templates(rows, ra, dec, size)
             snap = _snapshot(templates)
